@@ -91,6 +91,27 @@ _SAFE_METHODS = {
     (str, "lstrip"),
     (str, "rstrip"),
     (str, "splitlines"),
+    (str, "isalpha"),
+    (str, "isalnum"),
+    (str, "islower"),
+    (str, "isupper"),
+    (str, "isnumeric"),
+    (str, "isdecimal"),
+    (str, "isidentifier"),
+    (str, "isspace"),
+    (str, "isascii"),
+    (str, "find"),
+    (str, "rfind"),
+    (str, "count"),
+    (str, "partition"),
+    (str, "rpartition"),
+    (str, "rsplit"),
+    (str, "title"),
+    (str, "capitalize"),
+    (str, "casefold"),
+    (str, "removeprefix"),
+    (str, "removesuffix"),
+    (str, "zfill"),
 }
 
 
